@@ -51,13 +51,16 @@ def gen_lines(rnd, tier):
                     c = ("G" if vt == "c" else rnd.choice("FG")) + rnd.choice(SIGS)
                 else:
                     c = rnd.choice(["B", "N", "P"])
-            elems.append("%d:%s:%s" % (j, d, c))
+            elems.append("%d%s:%s:%s" % (j, "z" if rnd.random() < 0.15 else "", d, c))
         if k >= 2 and rnd.random() < 0.3:
             # verified, then an ancestor is given a further base that brings the first `nextra` members, then verified again
             nextra = rnd.randint(1, k - 1)
             L.append("verify2|%s|%d|%d|%s|%d|%d" % (vt, rnd.random() < 0.4, rnd.random() < 0.6, ";".join(elems), rnd.randint(0, k - nextra), nextra))
         else:
-            L.append("verify|%s|%d|%d|%s|%d" % (vt, rnd.random() < 0.4, rnd.random() < 0.6, ";".join(elems), rnd.randint(0, k)))
+            dcl = int(rnd.random() < 0.6)
+            if dcl and vt == "o" and rnd.random() < 0.3:
+                dcl = 2            # declared on the instance only (slots class without __dict__)
+            L.append("verify|%s|%d|%d|%s|%d" % (vt, rnd.random() < 0.4, dcl, ";".join(elems), rnd.randint(0, k)))
     return L
 
 
@@ -87,6 +90,7 @@ def to_model(line):
     es = []
     for e in f[4].split(";"):
         n, d, c = e.split(":")
+        n = n.rstrip("z")            # listed under an alias: the contract is about the listed name
         if c == "P" and f[1] == "o":
             c = "N"            # on an instance the property has been evaluated: a plain (non-callable) value
         if d == "A" and c != "X":
@@ -94,6 +98,7 @@ def to_model(line):
         if c[0] == "D":
             c = "G" + c[1:]    # the signature left once the (defaulted) self is dropped
         es.append("%s:%s:%s" % (n, d, c))
+    f[3] = "1" if f[3] == "2" else f[3]
     return "|".join(f[:4] + [";".join(es)])
 
 
